@@ -1449,6 +1449,10 @@ class Parallel(Logger):
         try:
             job = self._backend.submit(batch, callback=batch_tracker)
         except Exception as e:
+            if self._pre_dispatching:
+                # Initial dispatch, in the caller's thread: the caller sees
+                # the error directly.
+                raise
             # The backend cannot accept the batch, e.g. because a worker died
             # and the executor is broken. As this part of the code can be
             # executed in a callback thread of the backend, where exceptions
